@@ -1,4 +1,4 @@
-import Momo.Proof.BTreeOps
+import Momo.Proof.BTreeHistory
 /-!
 # C02 — B-tree set/map always equals the abstract sorted (multi)sequence
 
@@ -16,8 +16,8 @@ category.
 How the quantifier is met: every theorem holds for every `Cfg` (node capacity `maxCap ≥ 1`, capacity step, block-count
 rule, linear/binary search, unique/multi), every item type `α`, every comparison `lt` that satisfies `Order`
 (asymmetric, "not greater" transitive — what a strict weak order gives), every tree that satisfies the invariant
-`Tree.WF` (which allows empty leaves and empty internal nodes), every iterator of it. `C02_history_partial` shows that
-all states reachable by the proved operations satisfy the hypotheses. The node layout (contiguous / indexed) and the
+`Tree.WF` (which allows empty leaves and empty internal nodes), every iterator of it. `C02_history` shows that all
+states reachable from the empty container by any finite history of the operations satisfy the hypotheses. The node layout (contiguous / indexed) and the
 item relocation category do not occur in the model (items are values); they are covered by the correspondence run.
 -/
 namespace Momo.BTree
@@ -114,22 +114,94 @@ theorem C02_reset_key (cfg : Cfg) (t : Tree α) (hw : t.WF cfg) (pos : Pos) (hv 
     (t.resetKey pos x).toList = t.toList.set (t.idxOf pos) x ∧ (t.resetKey pos x).WF cfg :=
   tree_resetKey_spec cfg t hw pos hv x
 
-/-- **The property over histories — full statement** (all operations of `OpFull`: the ones below plus remove by key,
-by iterator range and by predicate, range insert, merge from another container by every path of `MergeTo`, copy).
-Kept as a statement; see `C02_history_partial` for what is proved and the registry for what is missing. -/
-def C02_history : Prop :=
-  ∀ (α : Type) (lt : α → α → Bool), Order lt → ∀ (cfg : Cfg), 0 < cfg.maxCap → 0 < cfg.step →
-    ∀ (ops : List (OpFull α)) (l' : List α), Spec.runFull lt cfg [] ops = some l' →
-      (ops.foldl (Tree.runOpFull lt cfg) {}).toList = l' ∧ (ops.foldl (Tree.runOpFull lt cfg) {}).WF cfg ∧
-      SortedBy lt cfg.multi (ops.foldl (Tree.runOpFull lt cfg) {}).toList
+/-- **Key count.** `GetKeyCount(k)` is the distance between the bounds, for unique keys (0 or 1) and for multi keys
+(the loop of `pvGetKeyCount`). -/
+theorem C02_key_count (lt : α → α → Bool) (ho : Order lt) (cfg : Cfg) (t : Tree α) (hw : t.WF cfg)
+    (hs : SortedBy lt cfg.multi t.toList) (k : α) :
+    Tree.keyCount lt cfg t k = upperIdx lt t.toList k - lowerIdx lt t.toList k :=
+  tree_keyCount_spec lt ho cfg t hw hs k
 
-/-- **The property over histories, proved part.** For every finite history of insert, hinted add (every valid hint),
-remove by iterator / extract (+ re-insert = insert), key reset and clear, from the empty container, for every
-configuration and every order: the model's in-order list equals the reference sequence computed by `Spec`, the
-invariant holds and the sequence is sorted — so every intermediate state satisfies the hypotheses of the theorems
-above (bounds, find, traversal, returned iterators). Not covered: `OpFull.removeKey` with multi keys, `removeRange`,
-`removeIf`, `insertRange`, `mergeFrom`, `copy` (correspondence only). -/
-theorem C02_history_partial (lt : α → α → Bool) (ho : Order lt) (cfg : Cfg) (hmax : 0 < cfg.maxCap)
+/-- **Remove an iterator range (`Remove(begin, end)`, `pvRemoveRange`).** For any two iterators `b ≤ e` of a
+well-formed tree — same leaf, or the general path through the common parent (predecessor moved into the separator,
+both boundary subtrees truncated, `pvDestroyInternal` in between, two non-fast rebalancing passes), or everything
+(`Clear`) — the in-order list loses exactly the elements `idx b ..< idx e`, the invariant is kept and the returned
+iterator has index `idx b`. -/
+theorem C02_remove_range (cfg : Cfg) (t : Tree α) (hw : t.WF cfg) (b e : Pos) (hvb : t.ValidPos b)
+    (hve : t.ValidPos e) (hle : t.idxOf b ≤ t.idxOf e) :
+    (Tree.removeRange cfg t b e (t.idxOf e - t.idxOf b)).1.toList =
+        t.toList.take (t.idxOf b) ++ t.toList.drop (t.idxOf e) ∧
+    (Tree.removeRange cfg t b e (t.idxOf e - t.idxOf b)).1.WF cfg ∧
+    (Tree.removeRange cfg t b e (t.idxOf e - t.idxOf b)).1.idxOf (Tree.removeRange cfg t b e (t.idxOf e - t.idxOf b)).2 =
+        t.idxOf b ∧
+    (Tree.removeRange cfg t b e (t.idxOf e - t.idxOf b)).1.ValidPos (Tree.removeRange cfg t b e (t.idxOf e - t.idxOf b)).2 :=
+  tree_removeRange_spec cfg t hw b e hvb hve hle
+
+/-- **Remove by key.** `Remove(key)` removes exactly the elements equivalent to the key (one iterator removal for
+unique keys, the run between the bounds as an iterator range for multi keys) and returns their number. -/
+theorem C02_remove_key (lt : α → α → Bool) (ho : Order lt) (cfg : Cfg) (t : Tree α) (hw : t.WF cfg)
+    (hs : SortedBy lt cfg.multi t.toList) (k : α) :
+    (Tree.removeKey lt cfg t k).1.toList = t.toList.filter (fun y => !equiv lt y k) ∧
+    (Tree.removeKey lt cfg t k).1.WF cfg ∧
+    (Tree.removeKey lt cfg t k).2 = upperIdx lt t.toList k - lowerIdx lt t.toList k :=
+  tree_removeKey_spec lt ho cfg t hw hs k
+
+/-- **Remove by predicate.** `Remove(filter)` removes exactly the elements satisfying the predicate. -/
+theorem C02_remove_if (cfg : Cfg) (f : α → Bool) (t : Tree α) (hw : t.WF cfg) :
+    (Tree.removeIf cfg f t).toList = t.toList.filter (fun y => !f y) ∧ (Tree.removeIf cfg f t).WF cfg :=
+  tree_removeIf_spec cfg f t hw
+
+/-- **Range insert.** `Insert(begin, end)` with its "right after the previous element" shortcut equals inserting
+the elements one after the other by stable insertion. -/
+theorem C02_insert_range (lt : α → α → Bool) (ho : Order lt) (cfg : Cfg) (hmax : 0 < cfg.maxCap) (t : Tree α)
+    (hw : t.WF cfg) (hs : SortedBy lt cfg.multi t.toList) (xs : List α) :
+    (Tree.insertRange lt cfg t xs).toList = xs.foldl (Spec.insert1 lt cfg.multi) t.toList ∧
+    (Tree.insertRange lt cfg t xs).WF cfg ∧ SortedBy lt cfg.multi (Tree.insertRange lt cfg t xs).toList :=
+  tree_insertRange_spec lt ho cfg hmax t hw hs xs
+
+/-- **Fast merge (`pvMergeFast`).** Two non-empty balanced trees of any heights, the keys of the first before the
+keys of the second: one balanced tree with the concatenated sequence (separator taken from the shorter tree,
+wrapper nodes when the spine of the taller tree is full, new root when it is full up to the top). -/
+theorem C02_merge_fast (cfg : Cfg) (hmax : 0 < cfg.maxCap) {d1 d2 : Nat} {r1 r2 : Node α} (hb1 : Bal d1 r1)
+    (hb2 : Bal d2 r2) (hne1 : toList r1 ≠ []) (hne2 : toList r2 ≠ []) :
+    toList (mergeFast cfg r1 r2) = toList r1 ++ toList r2 ∧ (∃ d, Bal d (mergeFast cfg r1 r2)) ∧
+    (Caps cfg.maxCap r1 → Caps cfg.maxCap r2 → Caps cfg.maxCap (mergeFast cfg r1 r2)) :=
+  mergeFast_spec cfg hmax hb1 hb2 hne1 hne2
+
+/-- **Merge (`MergeTo(TreeSet&)`), every path.** Source empty, destination empty (swap), whole source before or
+behind the destination (`pvMergeFast`), otherwise `pvMergeTo` or `pvMergeToLinear` by the size rule: the destination
+ends with the reference merge `Spec.merge` (concatenation when ordered, else stable insertion of the source
+elements in order), sorted and well-formed; what stays in the source is well-formed too. -/
+theorem C02_merge (lt : α → α → Bool) (ho : Order lt) (cfg : Cfg) (hmax : 0 < cfg.maxCap) (src dst : Tree α)
+    (hws : src.WF cfg) (hss : SortedBy lt cfg.multi src.toList) (hwd : dst.WF cfg)
+    (hsd : SortedBy lt cfg.multi dst.toList) :
+    (Tree.mergeTo lt cfg src dst).2.toList = Spec.merge lt cfg.multi src.toList dst.toList ∧
+    (Tree.mergeTo lt cfg src dst).2.WF cfg ∧ SortedBy lt cfg.multi (Tree.mergeTo lt cfg src dst).2.toList ∧
+    (Tree.mergeTo lt cfg src dst).1.WF cfg :=
+  tree_mergeTo_spec lt ho cfg hmax src dst hws hss hwd hsd
+
+/-- **Copy.** The copy constructor (`pvCopy`, every leaf re-created with the capacity its pool rule gives) yields a
+well-formed container with the same sequence. -/
+theorem C02_copy (cfg : Cfg) (t : Tree α) (hw : t.WF cfg) :
+    (Tree.copy cfg t).toList = t.toList ∧ (Tree.copy cfg t).WF cfg :=
+  tree_copy_spec cfg t hw
+
+/-- **The property over histories.** For every finite history of the operations of `OpFull` — insert, hinted add
+(every valid hint), remove by iterator / extract (+ re-insert = insert), key reset, clear, remove by key, by
+iterator range and by predicate, range insert, merge from another well-formed sorted container by every path of
+`MergeTo`, copy — from the empty container, for every configuration and every order: the model's in-order list equals
+the reference sequence computed by `Spec`, the invariant holds and the sequence is sorted. Hence every reachable state
+satisfies the hypotheses of the theorems above (bounds, find, key count, traversals, returned iterators).
+Move and swap only exchange whole containers and are not operations of a single container's history. -/
+theorem C02_history (lt : α → α → Bool) (ho : Order lt) (cfg : Cfg) (hmax : 0 < cfg.maxCap)
+    (ops : List (OpFull α)) (l' : List α) (h : Spec.runFull lt cfg [] ops = some l') :
+    (ops.foldl (Tree.runOpFull lt cfg) {}).toList = l' ∧ (ops.foldl (Tree.runOpFull lt cfg) {}).WF cfg ∧
+    SortedBy lt cfg.multi (ops.foldl (Tree.runOpFull lt cfg) {}).toList := by
+  have hs0 : SortedBy lt cfg.multi ({} : Tree α).toList := by unfold SortedBy; split <;> simp [Tree.toList]
+  exact runFull_spec lt ho cfg hmax ops {} (Tree.wf_empty cfg) hs0 l' (by simpa [Tree.toList] using h)
+
+/-- the same for the positional core (insert, hinted add, remove by iterator, key reset, clear) with a decidable
+reference run — used by the examples below -/
+theorem C02_history_core (lt : α → α → Bool) (ho : Order lt) (cfg : Cfg) (hmax : 0 < cfg.maxCap)
     (ops : List (Op α)) (l' : List α) (h : Spec.run lt cfg.multi [] ops = some l') :
     (ops.foldl (Tree.runOp lt cfg) {}).toList = l' ∧ (ops.foldl (Tree.runOp lt cfg) {}).WF cfg ∧
     SortedBy lt cfg.multi (ops.foldl (Tree.runOp lt cfg) {}).toList := by
@@ -159,6 +231,20 @@ example : (exOps.foldl (Tree.runOp exLt exCfg) {}).toList = [(2, 9), (4, 2), (5,
 example : ((exOps.foldl (Tree.runOp exLt exCfg) {}).shape exCfg) =
     some [(false, 0, 2), (false, 2, 2), (true, 2, 2), (true, 2, 2), (true, 1, 1)] := by
   decide   -- the root is an empty internal node left behind by lazy rebalancing
+
+/-- the state reached by that history satisfies every hypothesis of the theorems above -/
+example : (exOps.foldl (Tree.runOp exLt exCfg) {}).WF exCfg ∧
+    SortedBy exLt exCfg.multi (exOps.foldl (Tree.runOp exLt exCfg) {}).toList :=
+  ((C02_history_core exLt exLt_order exCfg (by decide) exOps
+    [(2, 9), (4, 2), (5, 7), (5, 3), (5, 6), (7, 4), (9, 8)] (by decide)).2)
+
+/-- range removal through the common parent, removal by key of a run of duplicates and a fast merge, on the model -/
+example : ((Tree.removeRange exCfg (exOps.foldl (Tree.runOp exLt exCfg) {})
+      ((exOps.foldl (Tree.runOp exLt exCfg) {}).posOfIdx 1) ((exOps.foldl (Tree.runOp exLt exCfg) {}).posOfIdx 5) 4).1.toList)
+    = [(2, 9), (7, 4), (9, 8)] := by decide +kernel
+example : ((Tree.removeKey exLt exCfg (exOps.foldl (Tree.runOp exLt exCfg) {}) (5, 0)).1.toList,
+           (Tree.removeKey exLt exCfg (exOps.foldl (Tree.runOp exLt exCfg) {}) (5, 0)).2)
+    = ([(2, 9), (4, 2), (7, 4), (9, 8)], 3) := by decide +kernel
 
 /-- a tree of capacity 1 with an empty leaf and an empty internal node satisfies the structure predicate -/
 example : Bal 2 (inner [(5, 1)] [inner [] [leaf 1 [(3, 2)]], inner [(7, 3)] [leaf 1 ([] : List (Nat × Nat)), leaf 1 [(9, 4)]]]) := by
